@@ -304,8 +304,15 @@ func (m *Model) deleteMode(id string, opts ...resource.WriteOption) error {
 	// The modes collection may keep a mode under another spelling of its id than the one the mode carries
 	// (resource.WithIDInterceptor, e.g. lower-casing): the active mode carries the stored mode's spelling, so the
 	// mode this id names is also compared by the id it carries.
-	if stored, ok := m.findMode(id); ok && stored.Id == active.Id {
-		return ErrDeleteActiveMode
+	// An update may since have rewritten the stored mode's id in yet another spelling: the id also names the active
+	// mode when the active mode's id finds the same stored mode.
+	if stored, ok := m.findMode(id); ok {
+		if stored.Id == active.Id {
+			return ErrDeleteActiveMode
+		}
+		if current, ok := m.findMode(active.Id); ok && current.Id == stored.Id {
+			return ErrDeleteActiveMode
+		}
 	}
 
 	// Delete reports a missing mode itself (NotFound), unless the caller passed resource.WithAllowMissing(true),
